@@ -117,7 +117,12 @@ def main():
                 continue
             meta = json.loads((d / "meta.json").read_text())
             r = run_checks(d / "patch.diff", [meta["property"]], tier)[meta["property"]]
-            verdict = "caught" if r["rc"] == 1 else ("MISSED" if r["rc"] == 0 else "INFRA")
+            if meta.get("harmless"):
+                # a behaviour-preserving refactoring: the check should stay quiet; a broken proof / correspondence without a failing
+                # input is the permitted (but noted) outcome, a concrete "failing input" is a false alarm of the machinery
+                verdict = "quiet" if r["rc"] == 0 else ("INFRA" if r["rc"] != 1 else ("broken-tie" if r["no_failing_input"] else "FALSE-ALARM"))
+            else:
+                verdict = "caught" if r["rc"] == 1 else ("MISSED" if r["rc"] == 0 else "INFRA")
             rows.append((d.name, meta["property"], verdict, r["no_failing_input"], r["what"]))
             print(f"{d.name:12s} {meta['property']} {verdict:6s} {'(no-failing-input)' if r['no_failing_input'] else ''} {r['what'] or ''}", flush=True)
         # merge into the recorded results (a partial run updates only the seeds it ran)
